@@ -179,6 +179,10 @@ def gen_cases(tier, seed):
                     if fault == "wronglast" and comp != "ttf":
                         continue
                     yield dict(entry="composite", comp=comp, fault=fault, ctx=ci, fh=fhi)
+                    # the same composite object was fitted before in a well-formed state and
+                    # becomes ill-formed through set_params
+                    yield dict(entry="composite", comp=comp, fault=fault, ctx=ci, fh=fhi,
+                               via="refit")
             for which in ("y:unsorted", "y:reversed_range", "y:empty", "y:dataframe", "y:ndarray",
                           "cv:int", "cv:kfold", "strategy", "strategy:single-split", "scoring",
                           "x_index", "x_longer",
@@ -520,7 +524,7 @@ def _composite_cell(res, case, y, fh, nt):
     from .. import doubles
 
     comp, fault = case["comp"], case["fault"]
-    key = "composite:%s:%s" % (comp, fault)
+    key = "composite:%s:%s" % (comp, fault) + (":refit" if case.get("via") == "refit" else "")
     a, b = NaiveForecaster(), PolynomialTrendForecaster()
     ctor_arg = {"ens": "forecasters", "stack": "forecasters", "mux": "forecasters",
                 "ttf": "steps"}[comp]
@@ -559,7 +563,13 @@ def _composite_cell(res, case, y, fh, nt):
         return TransformedTargetForecaster(lst)
 
     def prog(lst):
-        f = mk(lst)
+        if case.get("via") == "refit":
+            f = mk(goodlist)
+            f.fit(y.iloc[:-2].copy(), fh=fh)
+            f.predict()
+            f.set_params(**{ctor_arg: lst})
+        else:
+            f = mk(lst)
         holder["f"], holder["stage"] = f, "fit"
         f.fit(y.copy(), fh=fh)
         holder["stage"] = "after-fit"
